@@ -286,6 +286,68 @@ fn c08_nontrivial(t: &Trace) -> Option<String> {
     }
 }
 
+// One enforcement probe per changed aspect: right after an accepted mode change the new state
+// must already govern JOIN / PRIVMSG / TOPIC / INVITE (design section 7, C08).
+fn c08_enforce(eng: &mut crate::engine::Engine, xs: &mut ExtraState, outs: &[StepOut]) -> Result<(), Viol> {
+    let Some(last) = outs.last() else { return Ok(()) };
+    if !last.sent.starts_with("MODE #") && !last.sent.starts_with("MODE &") {
+        return Ok(());
+    }
+    let Some(sig) = last.exp.tags.iter().find(|t| t.starts_with("cmodesig:")) else { return Ok(()) };
+    let applied = sig.split(':').nth(2).unwrap_or("").to_string();
+    if applied.is_empty() {
+        return Ok(());
+    }
+    let ch = last.sent.split(' ').nth(1).unwrap_or("").to_string();
+    let Some(co) = eng.model.chans.get(&ch).cloned() else { return Ok(()) };
+    let plain_member = co.members.iter().find(|(_, r)| !r.any()).map(|(n, _)| n.clone());
+    let outsider = eng.model.users.keys().find(|n| !co.members.contains_key(*n)).cloned();
+    let mut lines: Vec<(String, String)> = vec![];
+    for l in ['k', 'l', 'i', 'b', 'e', 'I'] {
+        if applied.contains(l) {
+            if let Some(o) = &outsider {
+                lines.push((o.clone(), format!("JOIN {}", ch)));
+            }
+            break;
+        }
+    }
+    if applied.contains('m') || applied.contains('n') || applied.contains('s') || applied.contains('v') {
+        if let Some(m) = &plain_member {
+            lines.push((m.clone(), format!("PRIVMSG {} :enforcement probe", ch)));
+        }
+        if let Some(o) = &outsider {
+            lines.push((o.clone(), format!("PRIVMSG {} :enforcement probe from outside", ch)));
+        }
+    }
+    if applied.contains('t') {
+        if let Some(m) = &plain_member {
+            lines.push((m.clone(), format!("TOPIC {} :enforcement probe", ch)));
+        }
+    }
+    if applied.contains('i') {
+        if let (Some(m), Some(o)) = (&plain_member, &outsider) {
+            lines.push((m.clone(), format!("INVITE {} {}", o, ch)));
+        }
+    }
+    for (nick, line) in lines {
+        let Some(c) = eng.model.conn_of(&nick) else { continue };
+        let mut o = eng.line(c, &line);
+        o.ctx = "MODE#".into();
+        *xs.counters.entry("enforcement_probes".into()).or_insert(0) += 1;
+        let owns_all = |d: &Disc, _o: &StepOut| not_panic(d);
+        let pol = Policy { id: "C08", owns: &owns_all };
+        match judge(&pol, eng, &o) {
+            Verdict::Violation(mut v) => {
+                v.explanation = format!("enforcement probe after `{}`: {}", last.sent, v.explanation);
+                v.signature = format!("enforce:{}", v.signature);
+                return Err(v);
+            }
+            _ => {}
+        }
+    }
+    Ok(())
+}
+
 pub const C08: MbSpec = MbSpec {
     id: "C08",
     ncfg: 40,
@@ -294,7 +356,7 @@ pub const C08: MbSpec = MbSpec {
     owns: c08_owns,
     probe_level: 1,
     nontrivial: c08_nontrivial,
-    extra: None,
+    extra: Some(c08_enforce),
 };
 
 // ------------------------------------------------------------------------------------- C09
